@@ -142,13 +142,13 @@ def run_shard(spec, ctx):
                     from pico8.game import file as p8file
                     from pico8 import tool
                     with tempfile.TemporaryDirectory() as d:
-                        p1 = os.path.join(d, 'c.p8')
+                        p1 = os.path.join(d, ambient.BASE[0] + '.p8')
                         p8file.to_file(g, p1)
                         open(p1, 'rb').read().decode('utf-8')
                         if entry == 'cli':
                             if tool.main([ambient.vflag(), 'writep8', p1]):
                                 raise RuntimeError('writep8 failed')
-                            g2 = p8file.from_file(os.path.join(d, 'c_fmt.p8'))
+                            g2 = p8file.from_file(os.path.join(d, ambient.BASE[0] + '_fmt.p8'))
                         else:
                             g2 = p8file.from_file(p1)
                 back = b''.join(g2.lua.to_lines())
@@ -179,13 +179,13 @@ def p8_roundtrip(code, version, entry, writer=None):
         g2 = P8Formatter.from_file(io.BytesIO(data))
     else:
         with tempfile.TemporaryDirectory() as d:
-            p1 = os.path.join(d, 'c.p8')
+            p1 = os.path.join(d, ambient.BASE[0] + '.p8')
             p8file.to_file(g, p1, **kw)
             open(p1, 'rb').read().decode('utf-8')
             if entry == 'cli':
                 if tool.main([ambient.vflag(), 'writep8', p1]):
                     raise RuntimeError('writep8 failed')
-                g2 = p8file.from_file(os.path.join(d, 'c_fmt.p8'))
+                g2 = p8file.from_file(os.path.join(d, ambient.BASE[0] + '_fmt.p8'))
             else:
                 g2 = p8file.from_file(p1)
     return b''.join(g2.lua.to_lines())
